@@ -132,11 +132,13 @@ def rewrite_v1(txt):
     return txt
 
 
-def build_test(wd, pkg, race=False, tags="verif", log=None):
-    out = os.path.join(wd, pkg.replace("/", "_") + (".race" if race else "") + ".test")
+def build_test(wd, pkg, race=False, tags="verif", log=None, fuzz=None):
+    out = os.path.join(wd, pkg.replace("/", "_") + (".race" if race else "") + (".fuzz" if fuzz else "") + ".test")
     cmd = ["go", "test", "-c", "-vet=off", "-tags", tags, "-o", out]
     if race:
         cmd.append("-race")
+    if fuzz:
+        cmd.append("-fuzz=^%s$" % fuzz)  # builds with coverage instrumentation
     cmd.append("./" + pkg)
     t0 = time.time()
     rc, o = sh(cmd, cwd=wd, timeout=1500, log=log)
@@ -277,7 +279,7 @@ def run_property(pid, tier, seed, replay, keep, only):
         penv = {}
         if job["prepare"]:
             penv = getattr(prep, job["prepare"])(pid=pid, job=job, wd=wd, tier=tier, seed=seed, log=log, replay=replay) or {}
-        binp, bt = build_test(wd, job["pkg"], race=job["race"], log=log)
+        binp, bt = build_test(wd, job["pkg"], race=job["race"], log=log, fuzz=(None if replay else job["opts"].get("fuzz")))
         nsh = 1 if replay else max(1, min(job["shards"][ti], NCPU))
         checks = job["checks"][ti]
         scale = os.environ.get("VERIF_SCALE")
@@ -302,6 +304,19 @@ def run_property(pid, tier, seed, replay, keep, only):
                 env.setdefault("GORACE", "halt_on_error=0")
             cmd = [binp, "-test.run", job["run"], "-test.timeout", "%ds" % (job["timeout"][ti] + 60),
                    "-rapid.checks", str(per), "-rapid.seed", str(eff), "-rapid.nofailfile", "-test.count", "1"]
+            fz = job["opts"].get("fuzz")
+            if fz and not replay:
+                # native coverage-guided fuzzing: one coordinator process, NCPU workers; the fuzz function records
+                # violations itself (replay = the case as JSON, re-run by the ordinary replay path)
+                ft = job["opts"].get("fuzztime", (0, 60))[ti]
+                if scale:
+                    ft = max(1, int(ft * float(scale)))
+                cache = os.path.join(wd, job["pkg"], ".fuzzcache")
+                shutil.rmtree(cache, ignore_errors=True)
+                shutil.rmtree(os.path.join(wd, job["pkg"], "testdata", "fuzz"), ignore_errors=True)
+                cmd = [binp, "-test.run", "^$", "-test.fuzz", "^%s$" % fz, "-test.fuzztime", "%ds" % ft,
+                       "-test.fuzzcachedir", cache, "-test.parallel", str(NCPU), "-test.fuzzminimizetime", "10s",
+                       "-test.timeout", "%ds" % (job["timeout"][ti] + 60)]
             if job.get("steps"):
                 cmd += ["-rapid.steps", str(job["steps"])]
             slog = os.path.join(logdir, "%s-%s-%d.out" % (tier, job["name"], s))
